@@ -131,11 +131,14 @@ func (c *Ctx) Scn(name, kind string) *Scenario {
 
 // ExploreOpts configures Ctx.Explore.
 type ExploreOpts struct {
-	Name     string
-	Bound    int
-	EnvFree  bool
-	MaxSteps int
-	MaxExecs int
+	Name    string
+	Bound   int
+	EnvFree bool
+	// FreeSwitches: classic preemption bounding (switches at blocking points are free);
+	// default is delay bounding (every non-default scheduling choice costs one).
+	FreeSwitches bool
+	MaxSteps     int
+	MaxExecs     int
 }
 
 // SchedReplay is the replay artefact of a schedule violation.
@@ -163,7 +166,7 @@ func (c *Ctx) Explore(o ExploreOpts, body func(), check func(x *vsched.Exec) (ou
 		}
 		return
 	}
-	cfg := vsched.ExploreCfg{Name: o.Name, Bound: o.Bound, EnvFree: o.EnvFree, MaxSteps: o.MaxSteps, MaxExecs: o.MaxExecs, Deadline: c.Deadline, Shard: c.Shard, NShards: c.NShards}
+	cfg := vsched.ExploreCfg{Name: o.Name, Bound: o.Bound, EnvFree: o.EnvFree, FreeSwitches: o.FreeSwitches, MaxSteps: o.MaxSteps, MaxExecs: o.MaxExecs, Deadline: c.Deadline, Shard: c.Shard, NShards: c.NShards}
 	res := vsched.Explore(cfg, body, check)
 	s := c.Scn(o.Name, "schedules")
 	s.Bound = o.Bound
